@@ -10,6 +10,12 @@ History data (JSON-able):
       | ["D", v] | ["X", v, name]                      del v.children / del v[name]
       | ["N", name, parg, carg, fp, fc]                DAGNode(name, parents=…, children=…) -> next id
   arg = ["L", [m, …]] | ["T", [m, …]] | ["N"]          list / tuple / not iterable (5)
+      | ["H", k, [m, …]]                                the harness-side list OBJECT number k, passed as it is: the same
+                                                        object for every use of k in the history (created at first use,
+                                                        or by "M"); [m, …] = the content it must have at that moment if
+                                                        nobody but the harness wrote to it (this is what the model sees)
+      | ["M", k, [m, …]]  (an op)                       the harness overwrites list object k in place (`lst[:] = …`);
+                                                        no DAGNode API is called
   m   = node id (int) | "j<k>"                         k-th non-node object (None, 7, "s", object())
   f   = "none" | "pre" | "post"                        user hook of that assignment raising
 """
@@ -40,7 +46,24 @@ def _ms(ms) -> str:
 
 
 def _arg(a) -> str:
-    return "N" if a[0] == "N" else a[0] + _ms(a[1])
+    if a[0] == "N":
+        return "N"
+    if a[0] == "H":          # the model reads it as a plain list with the content the caller put there
+        return f"H{a[1]}=" + _ms(a[2])
+    return a[0] + _ms(a[1])
+
+
+def plain_arg(a):
+    return ["L", list(a[2])] if a[0] == "H" else a
+
+
+def plain_op(op):
+    """the operation with every shared-list argument replaced by an equal fresh list (what it means to the property)"""
+    if op[0] in ("P", "C"):
+        return [op[0], op[1], plain_arg(op[2]), op[3]]
+    if op[0] == "N":
+        return [op[0], op[1], plain_arg(op[2]), plain_arg(op[3]), op[4], op[5]]
+    return op
 
 
 def op_tok(op) -> str:
@@ -55,6 +78,8 @@ def op_tok(op) -> str:
         return f"X:{op[1]}:{hx(op[2])}"
     if k == "N":
         return f"N:{hx(op[1])}:{_arg(op[2])}:{_arg(op[3])}:{op[4]}:{op[5]}"
+    if k == "M":
+        return f"M:{op[1]}"
     raise ValueError(op)
 
 
@@ -131,6 +156,7 @@ class World:
         self.ctl = _Ctl()
         self.HD.ctl = self.ctl
         self.junk = [None, 7, "s", object()]
+        self.pool = {}      # caller-side list objects that are passed to several calls
         for nm in names:
             self.HD(nm)
 
@@ -155,11 +181,24 @@ class World:
     def arg(self, a):
         if a[0] == "N":
             return 5
+        if a[0] == "H":
+            if a[1] not in self.pool:
+                self.pool[a[1]] = [self.member(m) for m in a[2]]
+            return self.pool[a[1]]          # the SAME object every time, content untouched by the harness
         xs = [self.member(m) for m in a[1]]
         return xs if a[0] == "L" else tuple(xs)
 
+    def _read(self, node, attr):
+        """one adjacency list through the public API; an exception becomes a token, never a traceback"""
+        try:
+            return [self.ident(o) for o in getattr(node, attr)]
+        except _Timeout:
+            raise
+        except Exception as e:
+            return ["crash:" + type(e).__name__]
+
     def snapshot(self):
-        return [([self.ident(p) for p in x.parents], [self.ident(c) for c in x.children]) for x in self.ctl.reg]
+        return [(self._read(x, "parents"), self._read(x, "children")) for x in self.ctl.reg]
 
     def apply(self, op) -> str:
         """run one operation through the public API; 'ok' or 'rej' (any exception)"""
@@ -208,6 +247,12 @@ class World:
                 del v[op[2]]
             except Exception:
                 return "rej"
+        elif k == "M":
+            objs = [self.member(m) for m in op[2]]
+            if op[1] in self.pool:
+                self.pool[op[1]][:] = objs
+            else:
+                self.pool[op[1]] = objs
         elif k == "N":
             ps, cs = self.arg(op[2]), self.arg(op[3])
             ctl.fp, ctl.fc = op[4], op[5]
@@ -263,7 +308,7 @@ def run_real(d, assertions=None, with_anc=True):
     returns [(outcome, snapshot, ancestors|None)] with one entry for the initial state (outcome 'init')
     followed by one per op; snapshot = [(parent ids, child ids)] per node in allocation order."""
     asrt = bool(d["asrt"]) if assertions is None else bool(assertions)
-    key = (line_of(d), asrt, with_anc)
+    key = (line_of(d), repr(d["ops"]), asrt, with_anc)
     hit = _MEMO.get(key)
     if hit is not None:
         return hit
@@ -283,8 +328,8 @@ def run_real(d, assertions=None, with_anc=True):
             snap = w.snapshot()
             anc = None
             acyc = _acyclic(snap)
-            if with_anc and asrt and acyc:
-                anc = [[w.ident(a) for a in x.ancestors] for x in w.reg]
+            if with_anc and asrt and acyc and not _crashed(snap):
+                anc = [w._read(x, "ancestors") for x in w.reg]
             out.append((o, snap, anc))
             if asrt and not acyc:
                 break   # the guards walk `ancestors`, which does not terminate on a cyclic store: stop here
@@ -296,6 +341,10 @@ def run_real(d, assertions=None, with_anc=True):
     if len(_MEMO) < _MEMO_MAX:
         _MEMO[key] = out
     return out
+
+
+def _crashed(snap) -> bool:
+    return any(isinstance(x, str) and x.startswith("crash:") for ps, cs in snap for x in list(ps) + list(cs))
 
 
 def _fmt_snap(snap) -> str:
@@ -480,6 +529,19 @@ def oracle_c10(d, assertions=None):
         _, before, _ = tr[k]
         out, after, anc = tr[k + 1]
         where = f"after op {k} {op_tok(op)} ({out})"
+        op = plain_op(op)
+        if _crashed(after):
+            msgs.append(f"{where}: reading node.parents / node.children raised: {_fmt_snap(after)}")
+            break
+        if op[0] == "M":
+            # no DAGNode API was called: the links cannot have changed (they can if a node adopted the caller's list)
+            if after != before:
+                msgs.append(f"{where}: the caller changed a list it had passed earlier and the DAG changed with it: "
+                            f"before {_fmt_snap(before)} after {_fmt_snap(after)}")
+            msgs += _wf_msgs(after, where)
+            if msgs:
+                break
+            continue
         if not asrt and (not _valid_members(op) or _must_refuse(op, before) or _not_a_list(op)):
             break   # checks off: the claim covers the history up to the first call the checks would have refused
         if out == "hang":
@@ -492,6 +554,9 @@ def oracle_c10(d, assertions=None):
         # node.ancestors agrees with the graph search and never contains the node itself
         if anc is not None:
             for i, a in enumerate(anc):
+                if a[:1] and isinstance(a[0], str) and a[0].startswith("crash:"):
+                    msgs.append(f"{where}: node {i}.ancestors raised {a[0][6:]}")
+                    continue
                 if i in a or set(a) != _reach(after, i, 0) or len(set(a)) != len(a):
                     msgs.append(f"{where}: node {i}.ancestors = {a}, graph search gives {sorted(_reach(after, i, 0))}")
         eb, _ = _edges(before)
@@ -558,9 +623,10 @@ def oracle_c02(d, assertions=None):
             break
         _, before, _ = tr[k]
         out, after, _ = tr[k + 1]
-        if out != "rej":
+        if out != "rej" or op[0] == "M":
             continue
         where = f"op {k} {op_tok(op)} raised"
+        op = plain_op(op)
         if not asrt and not _valid_members(op):
             continue   # checks switched off by the user AND an argument the checks exist to refuse: outside C02's claim
         if op[0] != "N":
@@ -794,8 +860,29 @@ def gen_random_history(rng, fault_rate=0.25, nmin=4, nmax=8, maxops=40, wild=0.1
     rng.shuffle(rank)
     ops = []
     cur = n
+    content = {}          # caller-side list objects: what the harness last put in them
+    share = rng.random() < 0.4
+    def maybe_shared(a, ok):
+        """re-use a caller-side list object: either pass an existing one again (the op then uses ITS content) or
+        register this argument as a new object"""
+        if not share or a[0] != "L" or rng.random() > 0.35:
+            return a
+        k = rng.randrange(3)
+        if k in content and rng.random() < 0.7:
+            return ["H", k, list(content[k])]
+        if k not in content:
+            content[k] = list(a[1])
+            return ["H", k, list(a[1])]
+        return a
     for _ in range(rng.randint(1, maxops)):
+        if share and content and rng.random() < 0.06:
+            k = rng.choice(sorted(content))
+            content[k] = [rng.randrange(cur) for _ in range(rng.choice([0, 1, 2, 3]))]
+            ops.append(["M", k, list(content[k])])
+            continue
         op = _random_op(rng, cur, names, rank, fault_rate, wild)
+        if op is not None and op[0] in ("P", "C"):
+            op = [op[0], op[1], maybe_shared(op[2], True), op[3]]
         if op is None:
             if cur >= 12:
                 continue
@@ -814,12 +901,62 @@ def gen_random_history(rng, fault_rate=0.25, nmin=4, nmax=8, maxops=40, wild=0.1
             fp = rng.choice(["pre", "post"]) if rng.random() < fault_rate / 2 else "none"
             fc = rng.choice(["pre", "post"]) if rng.random() < fault_rate / 2 else "none"
             nm = rng.choice(alphabet)
-            op = ["N", nm, ["L", ps], ["L", cs], fp, fc]
+            op = ["N", nm, maybe_shared(["L", ps], True), maybe_shared(["L", cs], True), fp, fc]
             rank.append(newrank)
             names.append(nm)
             cur += 1
         ops.append(op)
     return mk_data(n, ops, names[:n], asrt)
+
+
+def shared_corpus():
+    """the same caller-side list object passed to several calls (and changed by the caller in between)"""
+    out = []
+    H = lambda k, ms: ["H", k, list(ms)]
+    seqs = [
+        # shared = [a, b]; c.parents = shared; d.parents = shared; e >> c
+        [["P", 2, H(0, [0, 1]), "none"], ["P", 3, H(0, [0, 1]), "none"], ["R", 4, 2, "none"], ["R", 5, 3, "none"]],
+        [["P", 2, H(0, [0, 1]), "none"], ["P", 3, H(0, [0, 1]), "none"], ["P", 2, ["L", [4]], "none"], ["D", 0]],
+        [["P", 2, H(0, [0]), "none"], ["M", 0, [0, 1]], ["P", 3, H(0, [0, 1]), "none"], ["M", 0, []], ["S", 2, 4, "none"]],
+        [["P", 2, H(0, [0, 1]), "post"], ["P", 2, H(0, [0, 1]), "none"], ["M", 0, [4]], ["P", 3, H(0, [4]), "none"]],
+        [["P", 2, H(0, [0, 1]), "none"], ["M", 0, [5, 4]], ["D", 0], ["P", 3, H(0, [5, 4]), "pre"], ["P", 3, H(0, [5, 4]), "none"]],
+        # children setter
+        [["C", 0, H(0, [2, 3]), "none"], ["C", 1, H(0, [2, 3]), "none"], ["C", 0, ["L", [4]], "none"], ["R", 1, 5, "none"]],
+        [["C", 0, H(0, [2]), "none"], ["M", 0, [2, 3, 4]], ["C", 1, H(0, [2, 3, 4]), "post"], ["C", 1, H(0, [2, 3, 4]), "none"], ["M", 0, []]],
+        # one object as parents of one node and children of another
+        [["P", 3, H(0, [1, 2]), "none"], ["C", 0, H(0, [1, 2]), "none"], ["R", 4, 3, "none"], ["C", 0, ["L", [5]], "none"]],
+        # constructor
+        [["N", "c", H(0, [0, 1]), ["L", []], "none", "none"], ["N", "d", H(0, [0, 1]), ["L", []], "none", "none"], ["R", 2, 6, "none"], ["S", 7, 3, "none"]],
+        [["N", "c", ["L", []], H(0, [4, 5]), "none", "none"], ["N", "d", ["L", []], H(0, [4, 5]), "none", "none"], ["C", 6, ["L", [3]], "none"], ["M", 0, [1]]],
+        [["N", "c", H(0, [0]), H(1, [5]), "none", "none"], ["M", 0, [0, 1]], ["M", 1, [4]], ["N", "d", H(0, [0, 1]), H(1, [4]), "none", "post"], ["P", 6, ["L", [2]], "none"]],
+    ]
+    for sq in seqs:
+        out.append((mk_data(6, sq), ("corpus", "shared-list")))
+    return out
+
+
+def gen_shared_exhaustive(rng, tier):
+    """from every list-exact store on 3 nodes: the same list object given to two setter calls, then one more insertion"""
+    out = []
+    n = 3
+    names = EXH_NAMES[:n]
+    lists = [list(l) for r in (1, 2) for l in itertools.permutations(range(n), r)]
+    combos = []
+    for v1 in range(n):
+        for v2 in range(n):
+            for l in lists:
+                for k1, k2 in (("P", "P"), ("C", "C"), ("P", "C"), ("C", "P")):
+                    for k3 in ("P", "C"):
+                        for w in range(n):
+                            for v3 in {v1, v2}:
+                                combos.append((v1, v2, l, k1, k2, k3, w, v3))
+    for h in bfs_states(n, names):
+        empty = not h
+        pick = combos if (empty or tier == "thorough") else rng.sample(combos, 40)
+        for v1, v2, l, k1, k2, k3, w, v3 in pick:
+            ops = [[k1, v1, ["H", 0, l], "none"], [k2, v2, ["H", 0, l], "none"], [k3, v3, ["L", [w]], "none"]]
+            out.append((mk_data(n, h + ops, names), ("exh-shared", "n=3")))
+    return out
 
 
 def corpus():
@@ -864,7 +1001,7 @@ def corpus():
 
 def gen_histories(rng, tier, fault_rate=0.25, asrt=1, exhaustive=True):
     """list of (data, tags): corpus + successor enumeration on <=3 nodes + random histories on 4-8 nodes"""
-    out = [(dict(d, asrt=asrt), t) for d, t in corpus()]
+    out = [(dict(d, asrt=asrt), t) for d, t in corpus() + shared_corpus()]
     if exhaustive:
         out += gen_exhaustive(tier, asrt)
     nrand = 1500 if tier == "quick" else 12000
@@ -879,6 +1016,7 @@ def gen_histories(rng, tier, fault_rate=0.25, asrt=1, exhaustive=True):
 
 def gen(rng, tier):
     cases = [mk_case(d, t) for d, t in gen_histories(rng, tier, 0.25, asrt=1)]
+    cases += [mk_case(d, t) for d, t in gen_shared_exhaustive(random.Random(rng.random()), tier)]
     if tier == "thorough":
         cases += [mk_case(d, t) for d, t in gen_exhaustive4(rng, 12)]
     # the switch: the same kinds of histories with the checks off (the model is parameterised by it)
@@ -894,7 +1032,10 @@ def nontrivial(case):
         return False
     def sz(o):
         if o[0] in ("P", "C"):
-            return len(o[2][1]) if o[2][0] != "N" else 0
+            pa = plain_arg(o[2])
+            return len(pa[1]) if pa[0] != "N" else 0
+        if o[0] == "M":
+            return 0
         if o[0] == "N":
             return 1
         return 1
@@ -910,29 +1051,40 @@ def shrink(case):
     # drop one op (constructors only when no later op mentions an id allocated at or after it)
     alloc = d["n"]
     for i, o in enumerate(ops):
+        if o[0] == "M":
+            continue        # later uses of that list object record the content written here
         if o[0] == "N":
             later = ops[i + 1:]
             def mentions(op, lim):
                 xs = []
                 if op[0] in ("P", "C"):
-                    xs = [op[1]] + (op[2][1] if op[2][0] != "N" else [])
+                    pa = plain_arg(op[2])
+                    xs = [op[1]] + (pa[1] if pa[0] != "N" else [])
                 elif op[0] in ("R", "S"):
                     xs = [op[1], op[2]]
                 elif op[0] in ("D", "X"):
                     xs = [op[1]]
                 elif op[0] == "N":
                     xs = [10 ** 9]
+                elif op[0] == "M":
+                    xs = list(op[2])
                 return any(isinstance(x, int) and x >= lim for x in xs)
             ok = not any(mentions(op, alloc) for op in later)
             alloc += 1
             if not ok:
                 continue
         yield mk(ops[:i] + ops[i + 1:])
+    # less sharing: a shared list object replaced by an equal fresh list
+    for i, o in enumerate(ops):
+        if o[0] in ("P", "C") and o[2][0] == "H":
+            yield mk(ops[:i] + [[o[0], o[1], plain_arg(o[2]), o[3]]] + ops[i + 1:])
+        if o[0] == "N" and (o[2][0] == "H" or o[3][0] == "H"):
+            yield mk(ops[:i] + [[o[0], o[1], plain_arg(o[2]), plain_arg(o[3]), o[4], o[5]]] + ops[i + 1:])
     # faults off, shorter member lists
     for i, o in enumerate(ops):
         if o[0] in ("P", "C", "R", "S") and o[3] != "none":
             yield mk(ops[:i] + [o[:3] + ["none"]] + ops[i + 1:])
-        if o[0] in ("P", "C") and o[2][0] != "N" and len(o[2][1]) > 0:
+        if o[0] in ("P", "C") and o[2][0] in ("L", "T") and len(o[2][1]) > 0:
             for j in range(len(o[2][1])):
                 yield mk(ops[:i] + [[o[0], o[1], [o[2][0], o[2][1][:j] + o[2][1][j + 1:]], o[3]]] + ops[i + 1:])
 
